@@ -1,5 +1,7 @@
 import A2Verif.Lemmas.Detok
 import A2Verif.Lemmas.DetokTotal
+import A2Verif.Lemmas.Retok
+import A2Verif.Lemmas.Merlin
 /-!
 # C14 — Tokenized programs are faithful and re-readable
 
@@ -249,5 +251,165 @@ theorem integer_token_tables_agree :
     integerDetok.lookup iRemTok = some [114, 101, 109] ∧
     integerDetok.lookup iOpenQuote = some [34] ∧ integerDetok.lookup iCloseQuote = some [34] := by
   decide +kernel
+
+/-! ## round 2: the listing is re-read to the same bytes (model level) -/
+
+/-- **Payload round trip, all bytes, all three contexts** (property clause "tokenizes to the same
+bytes", for strings, REM and DATA payloads *including escapes and escape look-alikes*).
+Let `b'` be what follows a `"`/REM/DATA token up to the end of the line (`00`), `q` the quote count the
+detokenizer starts with.  Then (1) the Rust escape routine — whose look-ahead runs into the rest of the
+image `tl` — stops exactly at the end of the payload `p` and prints the payload-only listing `escP p`;
+(2) the parser's scan of the listing (to the closing quote / unquoted colon / end of line) finds
+exactly that text again, whatever follows it; (3) `parse_escaped_ascii` turns it back into `p`.
+No condition on the payload bytes other than `< 256` and `≠ 00`: in particular a literal backslash
+followed by `xHH` for every hex digit in both cases is covered (`\x5c` is printed and re-read). -/
+theorem payload_roundtrip (ctx : Ctx) (b' tl w : List Nat) (q : Nat)
+    (hb : ∀ x ∈ b', x < 256 ∧ x ≠ 0)
+    (hw1 : (spanA ctx (termOf ctx) q b').2 = [] → ∃ w', w = 10 :: w')
+    (hw2 : ∀ c z, (spanA ctx (termOf ctx) q b').2 = c :: z → (c = 34 ∨ c = 58) ∧ ∃ w', w = c :: w') :
+    let p := (spanA ctx (termOf ctx) q b').1
+    let e := escA ctx (termOf ctx) (b' ++ 0 :: tl) q
+    e.2 = (spanA ctx (termOf ctx) q b').2 ++ 0 :: tl ∧
+    (spanT ctx q (e.1 ++ w)).2 = w ∧
+    unescA (spanT ctx q (e.1 ++ w)).1 = p := by
+  intro p e
+  have h1 := escA_spanA ctx tl b' q (fun x hx => (hb x hx).2)
+  have h2 := spanT_escP ctx b' q w (fun x hx => (hb x hx).1) hw1 hw2
+  have hp : ∀ x ∈ p, x < 256 := by
+    intro x hx
+    have hs := (spanA_split ctx (termOf ctx) b' q).1
+    exact (hb x (by rw [← hs]; exact List.mem_append_left _ hx)).1
+  have h3 := unescA_escP p hp
+  show (escA ctx (termOf ctx) (b' ++ 0 :: tl) q).2 = _ ∧
+    (spanT ctx q ((escA ctx (termOf ctx) (b' ++ 0 :: tl) q).1 ++ w)).2 = w ∧
+    unescA (spanT ctx q ((escA ctx (termOf ctx) (b' ++ 0 :: tl) q).1 ++ w)).1 = p
+  rw [h1]
+  refine ⟨rfl, ?_, ?_⟩
+  · show (spanT ctx q (escP (spanA ctx (termOf ctx) q b').1 ++ w)).2 = w
+    rw [h2]
+  · show unescA (spanT ctx q (escP (spanA ctx (termOf ctx) q b').1 ++ w)).1 = p
+    rw [h2]; exact h3
+
+/-- a string `"\x0F"` typed as backslash, `x`, `0`, `F` (bytes `5C 78 30 46`) followed by its closing quote:
+listed as `\x5cx0F`, re-read as the same four bytes -/
+example : (escA .str [34, 0] ([92, 120, 48, 70, 34] ++ 0 :: [0, 0]) 1).1 = [92, 120, 53, 99, 120, 48, 70] := by
+  decide +kernel
+example : unescA [92, 120, 53, 99, 120, 48, 70] = [92, 120, 48, 70] := by decide +kernel
+/-- without the escaped backslash the listing `\x0F` would be re-read as the single byte `0F` -/
+example : unescA [92, 120, 48, 70] = [15] := by decide +kernel
+
+/-- **`DETOK_MAP` is inverted by the keyword lookup of the reference tokenizer**: every upper-case
+spelling is found again and gives its own token byte; no spelling contains a blank or a line end (so a
+blank-delimited keyword of the listing is one word) -/
+theorem keyword_lookup_inverts_detok_map :
+    applesoftDetok.all (fun p => lookupKw (upper p.2) == some p.1 &&
+      (upper p.2).all (fun c => c != 32 && c != 10)) = true := by
+  decide +kernel
+
+/-- the round-trip statement of the property on the model, as a decidable check of one stream:
+in-class, detokenizes, and the reference tokenizer returns `stripHead t` -/
+def roundTripHolds (addr : Nat) (t : List Nat) : Bool :=
+  match detokA t with
+  | .ok s => retokA addr s == stripHeadA addr t
+  | _ => false
+
+/- FULL (not proved, see `design/C14.md`):
+   theorem retokA_detokA (addr : Nat) (t : List Nat) (h : WF_A addr t = true) (hc : classA addr t = true) :
+       roundTripHolds addr t = true
+   Proved parts: `payload_roundtrip` (all payload bytes, all contexts), `keyword_lookup_inverts_detok_map`,
+   `link_field_law` (re-assembly).  Missing: the induction over the items of a line that glues them
+   (line number, code characters, keyword items, blank stripping after REM/DATA).  The statement is
+   evaluated by the driver op `c14 rtA` on every token stream the real tokenizer produces in the harness. -/
+
+/-- instances of the full statement (strings with escapes and a look-alike, REM with head blanks, DATA with
+a quoted colon followed by a statement, keywords, an unterminated string) -/
+def roundTripHoldsLines (addr : Nat) (ls : List Line) : Bool :=
+  match assembleA addr ls with
+  | .ok t => WF_A addr t && classA addr t && roundTripHolds addr t
+  | _ => false
+
+theorem retokA_detokA_partial :
+    roundTripHoldsLines 2049 [⟨10, [151]⟩, ⟨20, [186, 34, 72, 73, 34]⟩] = true ∧
+    roundTripHoldsLines 16384
+      [⟨10, [186, 34, 92, 120, 48, 70, 13, 255, 34, 59, 65]⟩,          -- PRINT "\x0F<CR><FF>";A  (look-alike)
+       ⟨20, [178, 32, 32, 92, 120, 52]⟩,                                 -- REM ␣␣\x4
+       ⟨30, [131, 32, 34, 58, 34, 44, 92, 120, 102, 102, 32, 58, 186, 65, 36]⟩,  -- DATA ␣":",\xff␣:PRINT A$
+       ⟨40, [186, 34, 72, 73]⟩] = true := by                             -- PRINT "HI  (unterminated)
+  decide +kernel
+
+/-! ## round 2: Integer BASIC number token -/
+
+theorem dec_head_is_digit : ∀ hi : Fin 128, ∀ lo : Fin 256,
+    48 ≤ (dec (lo.val + 256 * hi.val)).headD 0 ∧ (dec (lo.val + 256 * hi.val)).headD 0 ≤ 57 := by
+  decide +kernel
+
+/-- **The header byte of an Integer BASIC number token comes from the value**: `numTokI v` is a function
+of the value alone (typed leading zeros or blanks cannot matter); its header is `B0 + d` where `'0'+d` is
+the first character of the decimal listing of `v` — the digit the listing starts with — so it lies in
+`B0..B9`; the two value bytes are `v` little endian.  All 32768 values `v = lo + 256·hi`. -/
+theorem integer_number_token_header_from_value (hi : Fin 128) (lo : Fin 256) :
+    numTokI (lo.val + 256 * hi.val) = [176 + firstDigit (lo.val + 256 * hi.val), lo.val, hi.val] ∧
+    48 + firstDigit (lo.val + 256 * hi.val) = (dec (lo.val + 256 * hi.val)).headD 0 ∧
+    firstDigit (lo.val + 256 * hi.val) ≤ 9 := by
+  have hd := dec_head_is_digit hi lo
+  have h1 : (lo.val + 256 * hi.val) % 256 = lo.val := by have := lo.isLt; omega
+  have h2 : (lo.val + 256 * hi.val) / 256 = hi.val := by have := lo.isLt; omega
+  refine ⟨by simp [numTokI, h1, h2], ?_, ?_⟩
+  · unfold firstDigit
+    cases hdec : dec (lo.val + 256 * hi.val) with
+    | nil => rw [hdec] at hd; simp at hd
+    | cons d _ => rw [hdec] at hd; simp at hd ⊢; omega
+  · unfold firstDigit
+    cases hdec : dec (lo.val + 256 * hi.val) with
+    | nil => simp
+    | cons d _ => rw [hdec] at hd; simp at hd ⊢; omega
+
+/-- the listing of a number token does not depend on the header, only on the value; a stream whose
+header digit disagrees with the value (`B0 07 00` for 7, what a tokenizer that looks at the typed text
+`007` would emit) is not well formed -/
+example : numTokI 7 = [183, 7, 0] ∧ numTokI 10 = [177, 10, 0] ∧ numTokI 0 = [176, 0, 0] := by decide
+example : WF_I ([8, 10, 0, 95] ++ numTokI 10 ++ [1]) = true := by decide +kernel
+example : WF_I [8, 10, 0, 95, 176, 10, 0, 1] = false := by decide +kernel
+example : detokI [8, 10, 0, 95, 177, 10, 0, 1] = .ok [49, 48, 32, 71, 79, 84, 79, 32, 49, 48, 10] := by decide +kernel
+
+/-! ## round 2: Merlin -/
+
+open A2Verif.Merlin in
+/-- **Merlin: the detokenizer is total on well-formed streams** (negative ASCII or blank, lines of at
+most 126 bytes ended by `8D`): it never refuses -/
+theorem merlin_detok_total_on_wf (t : List Nat) (h : WF_M t = true) : (detokM t).isOk = true := by
+  unfold detokM
+  split
+  · rfl
+  · exact detokLoop_wf t 0 [] h
+
+open A2Verif.Merlin in
+/-- **Merlin line format round trip (model)**: a line given as its columns `c :: cs` (label, opcode,
+operand, comment; any printable ASCII, blanks inside strings and comments allowed) is encoded as
+columns joined by single `A0` bytes, every character with the high bit set except blanks, `8D` at the
+end; the detokenizer's decoding loop recovers exactly these columns (what it hands to the column
+formatter is `c :: cs` again) and the listed line is the formatter's padding of them.  Holds in front
+of any rest of the stream `X`. -/
+theorem merlin_line_format_roundtrip (c : List Nat) (cs : List (List Nat)) (X : List Nat)
+    (h : ∀ col ∈ c :: cs, ∀ x ∈ col, colCharOK x = true) :
+    detokLoop (encLine (c :: cs) ++ X) [] =
+      (detokLoop X []).map fun tl => trimEnd (fmtCols 0 (c :: cs)) ++ [10] ++ tl :=
+  detok_encLine c cs X h
+
+open A2Verif.Merlin in
+/-- `LOOP LDA #$00 ;C` (4 columns): encoded bytes and listing with the default column widths 9/6/11 -/
+example : encLine [[76, 79, 79, 80], [76, 68, 65], [35, 36, 48, 48], [59, 67]]
+    = [204, 207, 207, 208, 160, 204, 196, 193, 160, 163, 164, 176, 176, 160, 187, 195, 141] := by decide
+open A2Verif.Merlin in
+example : detokM [204, 207, 207, 208, 160, 204, 196, 193, 160, 163, 164, 176, 176, 160, 187, 195, 141]
+    = .ok ([76, 79, 79, 80] ++ blanks 5 ++ [76, 68, 65] ++ blanks 3 ++ [35, 36, 48, 48] ++ blanks 7 ++ [59, 67, 10]) := by
+  decide +kernel
+open A2Verif.Merlin in
+/-- positive ASCII other than blank / tab is refused -/
+example : detokM [204, 65, 141] = .err := by decide +kernel
+
+/- FULL (not proved): `tokenize (detokenize t) = t` for Merlin needs a model of the column parser
+   (which blanks of the padded listing separate columns and which belong to strings / comments); the
+   parser is a parameter.  Checked by the direct oracle on the real code (`c14/merlin/retokenize-differs`). -/
 
 end A2Verif.C14
